@@ -1324,6 +1324,10 @@ func directedDocs() []struct {
 	add("descendant-backtracking", mk(nil, nil, &[4]float64{0, 0, 100, 100}, style(rule{sels: chain, props: []prop{blue}}), grp("a", grp("", grp("", rect())))))
 	chain2 := [][]snode{{{typ: "g", as: []asel{{"class", "a"}}}, {typ: "g"}, {typ: "g", child: true}, {typ: "rect", child: true}}}
 	add("descendant-backtracking-2", mk(nil, nil, &[4]float64{0, 0, 100, 100}, style(rule{sels: chain2, props: []prop{red}}), grp("a", grp("", grp("a", grp("", grp("", rect())))))))
+	// 11, 12: a class selector selects whole words of the class attribute: an earlier word that merely contains the class must
+	// not hide the word itself, and must not be selected by it
+	add("class-word-after-longer-word", mk(nil, nil, &[4]float64{0, 0, 100, 100}, style(rule{sels: cls("c1"), props: []prop{blue}}), rect(attr{kind: "class", names: []string{"c10", "c1"}})))
+	add("class-substring-is-no-word", mk(nil, nil, &[4]float64{0, 0, 100, 100}, style(rule{sels: cls("c1"), props: []prop{blue}}), rect(attr{kind: "class", names: []string{"c10", "xc1"}})))
 	return out
 }
 
